@@ -485,7 +485,10 @@ def transparency_signature(env, hist):
                 return 'C12/cache-key-omits:message_types+max_messages'
             if c1['align'] != 0 and not c1['inorder']:
                 return 'C12/cache-key-omits:message_types+time_align'
-            return 'C12/cached-type-reread-appends'
+            ids = [x for part in out[-1].split('|')[1:] for x in part.split('/')[1].split('.') if x != '-']
+            if len(ids) != len(set(ids)):
+                return 'C12/cached-type-reread-appends'
+            return 'C12/cached-entry-modified-on-partial-hit'
         return 'C12/cache-key-omits:' + KEY_NAMES[k]
     if not diff:
         return 'C12/repeated-call-differs'
@@ -538,16 +541,17 @@ def check_fresh_spec(ctx, env, c, fresh_text):
     n = c['max']
     sig = 'C12/fresh-read-differs-from-reader'
     if n is not None:
-        got_n = sum(len([x for x in p.split('/')[1].split('.') if x != '-']) for p in fresh_text.split('|')[1:]) \
-            if not c['inorder'] else len([x for x in fresh_text.split('/')[1].split('.') if x != '-'])
-        if n < 0 and len(full) > abs(n) and not (c['numpy'] and not c['keep']):
-            first = full[:abs(n)]
-            got_set = set()
-            for p in (fresh_text.split('|')[1:] if not c['inorder'] else [fresh_text]):
-                got_set |= set(x for x in p.split('/')[1].split('.') if x != '-')
-            if got_set == set(str(o) for _, o in first) and first != exp:
-                sig = 'C12/last-n-returns-first-n'
-        if sig.endswith('reader') and got_n < len(exp):
+        # identities actually returned: from the messages, or from the numpy columns when the messages were cleared
+        col = 3 if (c['numpy'] and not c['keep'] and not c['inorder']) else 1
+        got = set()
+        for part in (fresh_text.split('|')[1:] if not c['inorder'] else [fresh_text]):
+            f = part.split('/')
+            if len(f) > col and f[col] not in ('-', '~', '?'):
+                got |= set(f[col].split('.'))
+        first = full[:abs(n)]
+        if n < 0 and len(full) > abs(n) and got == set(str(o) for _, o in first) and first != exp:
+            sig = 'C12/last-n-returns-first-n'
+        elif len(got) < len(exp):
             if c['src'] is not None and set(c['src']) != set(env.avail):
                 sig = 'C12/max-messages-before-source-filter'
             elif c['rp1']:
@@ -651,7 +655,8 @@ def run(ctx, nlogs, per_log, maxlen, fresh_spec=True):
             one_history(ctx, F, env, hist, reg, drops, lines, pending)
             if ctx.elapsed() > (900 if ctx.thorough else 70):
                 break
-    # stage D (2): fresh-read specification against the reader
+    # stage D (2): fresh-read specification against the reader, and the Lean specification `freshSpec` against the code
+    spec_lines, spec_pending = [], []
     if fresh_spec:
         for env in envs:
             seen = set()
@@ -665,6 +670,17 @@ def run(ctx, nlogs, per_log, maxlen, fresh_spec=True):
                     seen.add(k)
                     check_fresh_spec(ctx, env, c, env.fresh(c))
                     ctx.count('fresh_spec_checked')
+                    tk, sel = env.selection(c)
+                    reader = '%d/%s/%s=%s' % (drops, dots(env.avail, '-'), tk, dots(sel))
+                    spec_lines.append('loaderspec %s %s %s %s' % (reg, reader, env.log_text(), k))
+                    spec_pending.append((env, c))
+    spec_outs = ctx.driver(spec_lines)
+    for (env, c), so in zip(spec_pending, spec_outs):
+        f = env.fresh(c)
+        if f != mask_model(so):
+            ctx.violation('C12/fresh-read-differs-from-spec', 'fresh read(%s) returned %s; the specification freshSpec gives %s' %
+                          (describe(c), f[:300], mask_model(so)[:300]), replay_obj(env, [c]))
+        ctx.count('lean_spec_checked')
     outs = ctx.driver(lines)
     for (env, hist, out), mo in zip(pending, outs):
         impl = ';'.join(out)
@@ -706,9 +722,9 @@ def check(ctx):
     ctx.prove(MODULES)
     try:
         if ctx.thorough:
-            run(ctx, 40, 60, 4)
+            run(ctx, 150, 80, 4)
         else:
-            run(ctx, 10, 22, 3)
+            run(ctx, 30, 40, 3)
     except fv.InfraError:
         if not ctx.proof_failures:
             raise
